@@ -55,6 +55,11 @@ enum Op {
     VMint { who: usize, recv: usize, a: i128 },
     VWithdraw { who: usize, recv: usize, a: i128 },
     VRedeem { who: usize, recv: usize, a: i128 },
+    /// vault: `op` withdraws / redeems `owner`'s shares through a share allowance, assets to `recv`
+    VWithdrawBy { op: usize, owner: usize, recv: usize, a: i128 },
+    VRedeemBy { op: usize, owner: usize, recv: usize, a: i128 },
+    /// vault: `who` sends `a` underlying assets straight to the vault (a donation / yield: no shares move)
+    VDonate { who: usize, a: i128 },
     Forced { from: usize, to: usize, a: i128 },
     /// RWA: recover the whole balance of `old` to its registered recovery target `new`
     Recover { old: usize, new: usize },
@@ -144,10 +149,17 @@ impl Tok {
             Op::VMint { who, recv, a } => ("mint", (*a, u(*recv), u(*who), u(*who)).into_val(e)),
             Op::VWithdraw { who, recv, a } => ("withdraw", (*a, u(*recv), u(*who), u(*who)).into_val(e)),
             Op::VRedeem { who, recv, a } => ("redeem", (*a, u(*recv), u(*who), u(*who)).into_val(e)),
+            Op::VWithdrawBy { op, owner, recv, a } => ("withdraw", (*a, u(*recv), u(*owner), u(*op)).into_val(e)),
+            Op::VRedeemBy { op, owner, recv, a } => ("redeem", (*a, u(*recv), u(*owner), u(*op)).into_val(e)),
+            Op::VDonate { .. } => return None,
         })
     }
 
     fn exec(&self, i: &Inst, op: &Op) -> bool {
+        if let Op::VDonate { who, a } = op {
+            let asset = i.asset.as_ref().expect("vault flavour");
+            return call_mocked(&i.e, asset, "transfer", (i.u[*who].clone(), i.c.clone(), *a).into_val(&i.e)).is_ok();
+        }
         let (f, args) = self.call(i, op).expect("op not available in flavour");
         let r = call_mocked(&i.e, &i.c, f, args);
         if std::env::var("VH_DEBUG").is_ok() {
@@ -225,10 +237,14 @@ impl World for Tok {
         format!("fungible-{:?}{}", self.flavour, if self.thorough { "-t" } else { "" })
     }
     fn seeds(&self) -> usize {
-        2
+        if matches!(self.flavour, Flavour::Vault(_)) {
+            3
+        } else {
+            2
+        }
     }
     fn seed_name(&self, s: usize) -> String {
-        ["small", "supply=i128::MAX-1"][s].to_string()
+        ["small", "supply=i128::MAX-1", "priced vault: A and B hold shares, 7 assets donated, B and C operators of A"][s].to_string()
     }
 
     fn fresh(&self, seed: usize) -> (Inst, Model) {
@@ -280,7 +296,7 @@ impl World for Tok {
             Flavour::BlockList => {}
             Flavour::Vault(_) => {
                 let a = inst.asset.clone().unwrap();
-                let amt: i128 = if seed == 0 { 20 } else { 1i128 << 100 };
+                let amt: i128 = if seed == 1 { 1i128 << 100 } else { 20 };
                 for k in 0..N {
                     call_mocked(e, &a, "mint", (inst.u[k].clone(), amt).into_val(e)).expect("asset mint");
                 }
@@ -288,6 +304,18 @@ impl World for Tok {
                     // a large first deposit so that share amounts are huge
                     call_mocked(e, &inst.c, "deposit", (amt - 7, inst.u[0].clone(), inst.u[0].clone(), inst.u[0].clone()).into_val(e)).expect("seed deposit");
                     self.fold_events(&inst, &mut ledger).expect("seed events");
+                }
+                if seed == 2 {
+                    // share price != 1 (donation) and share-holding operators with a long-lived allowance
+                    for (k, d) in [(0usize, 10i128), (1, 5)] {
+                        call_mocked(e, &inst.c, "deposit", (d, inst.u[k].clone(), inst.u[k].clone(), inst.u[k].clone()).into_val(e)).expect("seed deposit");
+                        self.fold_events(&inst, &mut ledger).expect("seed events");
+                    }
+                    call_mocked(e, &a, "transfer", (inst.u[2].clone(), inst.c.clone(), 7i128).into_val(e)).expect("seed donation");
+                    let six = if let Flavour::Vault(off) = self.flavour { 6 * 10i128.pow(off) } else { 6 };
+                    for k in [1usize, 2] {
+                        call_mocked(e, &inst.c, "approve", (inst.u[0].clone(), inst.u[k].clone(), six, 5000u32).into_val(e)).expect("seed approve");
+                    }
                 }
             }
         }
@@ -391,6 +419,23 @@ impl World for Tok {
                         v.push(Op::VWithdraw { who, recv, a });
                     }
                 }
+                for a in [1i128, 7] {
+                    v.push(Op::VDonate { who, a });
+                }
+            }
+            for owner in 0..N {
+                for op in 0..N {
+                    let al = o.allow[owner][op];
+                    if op == owner || al <= 0 {
+                        continue;
+                    }
+                    for recv in [op, owner] {
+                        for a in dedup(vec![1, 3, al, al.saturating_add(1)]) {
+                            v.push(Op::VRedeemBy { op, owner, recv, a });
+                            v.push(Op::VWithdrawBy { op, owner, recv, a });
+                        }
+                    }
+                }
             }
         }
         v
@@ -408,6 +453,9 @@ impl World for Tok {
             Op::VMint { .. } => "vault.mint",
             Op::VWithdraw { .. } => "vault.withdraw",
             Op::VRedeem { .. } => "vault.redeem",
+            Op::VWithdrawBy { .. } => "vault.withdraw(operator)",
+            Op::VRedeemBy { .. } => "vault.redeem(operator)",
+            Op::VDonate { .. } => "vault.donation",
             Op::Forced { .. } => "rwa.forced_transfer",
             Op::Recover { .. } => "rwa.recover_balance",
         }
@@ -444,6 +492,7 @@ impl World for Tok {
         let amount_of = |op: &Op| match op {
             Op::Mint { a, .. } | Op::Transfer { a, .. } | Op::Approve { a, .. } | Op::TransferFrom { a, .. } | Op::Burn { a, .. } | Op::BurnFrom { a, .. } => *a,
             Op::VDeposit { a, .. } | Op::VMint { a, .. } | Op::VWithdraw { a, .. } | Op::VRedeem { a, .. } | Op::Forced { a, .. } => *a,
+            Op::VWithdrawBy { a, .. } | Op::VRedeemBy { a, .. } | Op::VDonate { a, .. } => *a,
             Op::Recover { .. } => 0,
         };
         ensure!(amount_of(op) >= 0, "negative-amount-accepted", "{:?} succeeded with a negative amount", op);
@@ -478,6 +527,10 @@ impl World for Tok {
             }
             Op::VDeposit { recv, .. } | Op::VMint { recv, .. } => vault_move = Some((None, Some(*recv))),
             Op::VWithdraw { who, .. } | Op::VRedeem { who, .. } => vault_move = Some((Some(*who), None)),
+            Op::VWithdrawBy { owner, .. } | Op::VRedeemBy { owner, .. } => vault_move = Some((Some(*owner), None)),
+            Op::VDonate { .. } => {
+                ensure!(evs.is_empty(), "events", "a donation of assets made the vault emit share events {:?}", evs);
+            }
         }
         if let Some((f, t)) = vault_move {
             // the share amount is decided by the vault (C05); here: exactly one deposit/withdraw
@@ -494,7 +547,7 @@ impl World for Tok {
                 expect[f] -= shares;
                 exp_supply -= shares;
             }
-            if matches!(op, Op::VMint { .. } | Op::VRedeem { .. }) {
+            if matches!(op, Op::VMint { .. } | Op::VRedeem { .. } | Op::VRedeemBy { .. }) {
                 ensure!(shares == amount_of(op), "exact-delta", "{:?} moved {} shares", op, shares);
             }
         }
